@@ -28,6 +28,11 @@ RULE += (
     'dedicated sequences with equal halo-row count and subsample letter but different offsets: A+B then B only, cleaned then uncleaned, the same call twice, another simulation with equal halo counts, '
     'two filters keeping equally many rows, single files): index columns and every subsample column against a private snapshot, then the full oracle again.'
 )
+RULE += (
+    ' Added after seeded round 11: state left behind by a FAILED or REJECTED call -- on catalogue X a load that the real code legitimately rejects (a subsample / cleaned_rvpid file of one superslab missing or truncated, '
+    'an unknown field name, an unknown unpack_bits name, a filter_func that raises on a later superslab, passthrough without cleaning), followed in the same process by perfectly valid loads (cleaned and uncleaned, with subsamples, '
+    'merged particles present) of a DIFFERENT catalogue Y sharing superslab numbers and file names with X, and of the repaired X: each later valid load goes through the full oracle, and catalogues returned before the rejected call are re-verified.'
+)
 ASSUMPTIONS = [
     'float32 pos/vel within 1 ulp of the reference decoding; integer fields exact; lagr_pos within 4 ulp(BoxSize)',
     'a load that raises yields no catalogue: recorded under load_errors (C02/C03 own "must not fail"); fewer than 80% successful loads makes the run inconclusive',
@@ -423,6 +428,170 @@ def history(run, rng, ntree):
             shutil.rmtree(T2['root'], ignore_errors=True)
 
 
+class RaisingFilter:
+    """A caller's filter that works for the first superslabs and raises on a later one."""
+
+    class Refused(RuntimeError):
+        pass
+
+    def __init__(self, fail_at):
+        self.fail_at, self.ncalls = fail_at, 0
+
+    def __call__(self, h):
+        self.ncalls += 1
+        if self.ncalls > self.fail_at:
+            raise RaisingFilter.Refused(f'filter refuses superslab number {self.ncalls}')
+        return np.ones(len(h), dtype=bool)
+
+
+def _find(root, name):
+    for d, _, fns in os.walk(root):
+        if name in fns:
+            return os.path.join(d, name)
+    return None
+
+
+def after_rejected(run, rng, nround):
+    """State left behind by a failed / rejected call.  Per round: two simulations X and Y with common superslab numbers (hence common
+    file names) but different contents.  Valid loads of Y and X are made and verified first (and kept); then, repeatedly: one call on X
+    that the real code rejects (it raises on the unchanged code too), followed by valid loads, each put through the full oracle against
+    the generator's ground truth; the catalogues returned before the rejected call are re-verified as well.  The verdict never depends
+    on the rejected call itself."""
+    for k in range(nround):
+        nslab = int(rng.integers(2, 5))
+        inds = list(range(nslab)) if k % 2 == 0 else sorted(int(x) for x in rng.choice(np.arange(0, 30), nslab, replace=False))
+        hpsX = [int(rng.integers(1, 16)) for _ in inds]
+        # Y: the same superslab numbers; the same halo counts (k%3==0), other halo counts, or one more superslab
+        indsY, hpsY = list(inds), (list(hpsX) if k % 3 == 0 else [int(rng.integers(1, 16)) for _ in inds])
+        if k % 3 == 2:
+            indsY, hpsY = indsY + [inds[-1] + 1 + int(rng.integers(0, 3))], hpsY + [int(rng.integers(1, 16))]
+        common = dict(box=float(rng.choice([1.0, 500.0, 2000.0])), gap_prob=0.5, zero_part_prob=0.2, cleaned_away_prob=0.25, merge_prob=0.7, trailing=bool(k % 2))
+        X = gen_catalog.make_tree(rng, slab_inds=inds, halos_per_slab=hpsX, sim='SimX', compression=[None, 'zlib'][k % 2], clean_layout=[1, 2, 3, 4][k % 4], **common)
+        Y = gen_catalog.make_tree(rng, slab_inds=indsY, halos_per_slab=hpsY, sim=['SimY', 'SimX'][(k // 2) % 2], compression=[None, 'zlib'][(k // 2) % 2], clean_layout=[1, 2, 3, 4][(k + k // 4) % 4], **common)
+        undo = []
+        try:
+            nt = nontrivial_tree(X) and nontrivial_tree(Y)
+            AB, A, B = dict(A=True, B=True), dict(A=True), dict(B=True)
+            sY = indsY[int(rng.integers(0, len(indsY)))]
+            valid = [
+                ('Y cleaned, A+B pos+pid', Y, Y['path'], indsY, True, dict(AB, pos=True, pid=True)),
+                ('Y cleaned, B rv', Y, Y['path'], indsY, True, dict(B, rv=True)),
+                ('Y cleaned, A pid', Y, Y['path'], indsY, True, dict(A, pid=True)),
+                ('Y cleaned, everything', Y, Y['path'], indsY, True, True),
+                ('Y cleaned, one file', Y, os.path.join(Y['path'], 'halo_info', f'halo_info_{sY:03d}.asdf'), [sY], True, dict(AB, vel=True, pid=True)),
+                ('Y uncleaned, A+B pid', Y, Y['path'], indsY, False, dict(AB, pid=True)),
+                ('X repaired, cleaned, A+B pos+pid', X, X['path'], inds, True, dict(AB, pos=True, pid=True)),
+                ('X repaired, uncleaned, B pos', X, X['path'], inds, False, dict(B, pos=True)),
+            ]
+
+            def do_valid(j, tag, after=None):
+                """One valid load + full oracle.  Returns (violation raised?, catalogue, desc, oracle)."""
+                name, T, path, slabs, cleaned, sub = valid[j]
+                kw = dict(cleaned=cleaned, subsamples=sub, fields=['all', ['N', 'x_com'], 'DEFAULT_FIELDS'][(k + j) % 3])
+                desc = dict(rejected_round=k, load=name, phase=tag, after_rejected_call=after, slab_inds_X=inds, slab_inds_Y=indsY, halos_per_slab_X=hpsX, halos_per_slab_Y=hpsY, slabs_loaded=slabs, **{a: (b if not isinstance(b, dict) else dict(b)) for a, b in kw.items()})
+                run.progress(desc)
+                run.ev()
+                cat, err = catoracle.load(path, **kw)
+                run.count('loads')
+                if err is not None:
+                    run.count('load_errors')
+                    # a documented configuration on an intact tree; it is the call made at the start of the round
+                    run.violation('subsample-load-fails' if after is None else 'valid-load-after-rejected-call-fails', dict(error=f'{type(err).__name__}: {err}'[:200], **desc))
+                    return True, None, desc, None
+                run.count('loads_ok')
+                chk = lambda c, prefix, T=T, slabs=slabs, cleaned=cleaned, sub=sub, desc=desc: catoracle.check_subsamples(run, c, T, slabs, cleaned, resolved_AB(sub), desc=desc, key_prefix=prefix)  # noqa
+                return bool(chk(cat, 'subsample' if after is None else 'valid-load-after-rejected-call')), cat, desc, chk
+
+            # the valid calls, before anything was rejected in this round: full oracle, and kept alive as a caller's would be
+            kept = []
+            for j in range(len(valid)):
+                bad, cat, desc, chk = do_valid(j, 'before the rejected calls')
+                if not bad:
+                    kept.append(Kept(cat, desc, recheck=lambda c, chk=chk: chk(c, 'catalogue-returned-before-rejected-call')))
+                if run.too_many():
+                    return
+
+            def hide(fn):
+                os.rename(fn, fn + '.hidden')
+                undo.append(lambda: os.rename(fn + '.hidden', fn))
+
+            def truncate(fn):
+                shutil.copyfile(fn, fn + '.orig')
+                n = os.path.getsize(fn)
+                with open(fn, 'r+b') as f:
+                    f.truncate(max(1, (n * int(rng.integers(3, 9))) // 10))
+                undo.append(lambda: os.replace(fn + '.orig', fn))
+
+            def part_file():
+                rp, ab, s = ['rv', 'pid'][int(rng.integers(0, 2))], 'AB'[int(rng.integers(0, 2))], inds[int(rng.integers(0, nslab))]
+                return os.path.join(X['path'], f'halo_{rp}_{ab}', f'halo_{rp}_{ab}_{s:03d}.asdf'), f'halo_{rp}_{ab}_{s:03d}'
+
+            full = dict(AB, pos=True, vel=True, pid=True)
+            rejects = ['subsample file missing', 'subsample file truncated', 'cleaned_rvpid file missing', 'cleaned_rvpid file truncated', 'unknown field', 'unknown unpack_bits name', 'filter raises on a later superslab', 'passthrough without cleaning', 'subsample file missing, uncleaned']
+            for step, r in enumerate(int(i) for i in rng.permutation(len(rejects))):
+                kind = rejects[r]
+                kw = dict(cleaned=True, subsamples=dict(full), fields=['N', 'x_com'])
+                what = kind
+                if kind.startswith('subsample file'):
+                    fn, nm = part_file()
+                    (hide if 'missing' in kind else truncate)(fn)
+                    what = f'{kind}: {nm}'
+                    if kind.endswith('uncleaned'):
+                        kw['cleaned'] = False
+                elif kind.startswith('cleaned_rvpid'):
+                    s = inds[int(rng.integers(1, nslab))]  # a later superslab: the earlier ones are opened first
+                    fn = _find(X['root'], f'cleaned_rvpid_{s:03d}.asdf')
+                    (hide if 'missing' in kind else truncate)(fn)
+                    what = f'{kind}: cleaned_rvpid_{s:03d}'
+                elif kind == 'unknown field':
+                    kw['fields'] = ['N', 'no_such_field_xyz']
+                elif kind == 'unknown unpack_bits name':
+                    kw['unpack_bits'] = ['pid', 'no_such_bits']
+                elif kind.startswith('filter raises'):
+                    kw['filter_func'] = RaisingFilter(int(rng.integers(1, nslab)))
+                else:
+                    kw.update(cleaned=False, passthrough=True, subsamples=dict(AB, rvint=True))
+                run.ev()
+                cat, err = catoracle.load(X['path'], **kw)
+                while undo:
+                    undo.pop()()  # X is whole again
+                for kp in kept:
+                    kp.later.append(dict(rejected_call=what))
+                if err is None:
+                    # the statement does not say this call must be rejected: counted only
+                    run.count('calls_expected_to_be_rejected_that_returned')
+                    run.count('returned_instead_of_rejected|' + kind)
+                    del cat
+                    what += ' (returned)'
+                else:
+                    run.count('rejected_calls_before_valid_ones')
+                    run.count(f'rejected|{kind}|{type(err).__name__}')
+                    what += f' -> {type(err).__name__}'
+                # the valid loads that follow; the first is a cleaned load of Y two times out of three
+                first = int(rng.integers(0, 5)) if (step + k) % 3 else int(rng.integers(5, len(valid)))
+                second = int(rng.integers(0, len(valid)))
+                for n, j in enumerate((first, second)):
+                    bad, cat, desc, chk = do_valid(j, f'valid load number {n + 1} after the rejected call', after=what)
+                    run.count('valid_loads_after_rejected_calls')
+                    if not bad and nt and err is not None:
+                        run.nt(('after-rejected', k, kind, n, valid[j][0]))
+                    for kp in kept:
+                        kp.later.append(desc)
+                    if run.too_many():
+                        return
+                # what was returned before the rejected call is still what it was (one of them by the full oracle, in turn)
+                for i, kp in enumerate(kept):
+                    kp.reverify(run, full=(i == step % len(kept)))
+                if run.too_many():
+                    return
+            reverify_all(run, kept, full=True)
+        finally:
+            while undo:
+                undo.pop()()
+            shutil.rmtree(X['root'], ignore_errors=True)
+            shutil.rmtree(Y['root'], ignore_errors=True)
+
+
 def check(run):
     catoracle.fast_io()
     catoracle.install_contracts()
@@ -437,6 +606,8 @@ def check(run):
     lc_trees(run, rng, 4 if run.quick else 40)
     if not run.too_many():
         history(run, run.rng(1), 6 if run.quick else 60)
+    if not run.too_many():
+        after_rejected(run, run.rng(2), 5 if run.quick else 60)
     catoracle.report_contracts(run)
     if not run.counters.get('contract_evaluations_new_indices'):
         run.note_inconclusive('in-situ contracts were never evaluated')
